@@ -30,17 +30,27 @@
     leaf alternating between +0 and -0, open finding) and proto.Equal implies
     identity (no two NaN payloads).
 
-    Sessions.  [IReset] in a stream is a stream failure: the collector resets
-    the target (Cache.Reset: every root cut off, one <root>/* delete each) and a
-    new session starts; [replay] restarts from nothing.  [stream_ok] requires
-    ONE session for every target, so [C01_relay_faithful] is the statement for
-    uninterrupted sessions (for these it is complete).  The statement over
-    sessions -- same conclusion with [stream_ok] allowing [IReset] in the
-    subscribed target's and in the other targets' streams -- is not proved
-    (the wildcard deletes of a reset concern many keys at once, which the
-    invariant's last-entry-per-key bookkeeping does not yet carry); it is
-    covered by the correspondence run (families reconnect, burst), K_P on the
-    observations, and the instance [C01_relay_reconnect_example]. *)
+    Sessions.  [IReset] in a stream is a stream failure (error, EOF or timeout of
+    the target stream at any point): the collector resets the target
+    (Cache.Reset: every non-meta root cut off, one <root>/* delete announced
+    for each) and a new session starts; [replay] restarts from nothing.
+    [stream_ok] allows [IReset] anywhere, in the subscribed target's and in the
+    other targets' streams, any number of times, so [C01_relay_faithful] IS the
+    statement over histories of several sessions; [join_sessions earlier last]
+    spells such a history out and [C01_relay_sessions] is the reading "what the
+    client holds at quiescence is what the target's LAST session holds".
+    [C01_relay_no_stale_leaf] is the statement at every intermediate point of
+    every run ([pipeline_at]: the run stopped there, what is in flight
+    delivered): the client holds the replay of what the target has delivered so
+    far -- between a reset and the next sync, nothing the new session has not
+    sent.  [C01_relay_skip_reset_refuted] shows the statements separate a
+    collector that skips the reset.
+
+    What the session statements do not say: the meta leaves the reset keeps
+    (meta/sync, meta/connected, ...) are outside them (the subscription paths
+    are below non-meta origins, as before); and the time at which the manager
+    calls Reset relative to the stream error is not modelled (it is the next
+    thing the manager does for that target; C04 owns that sequence). *)
 From Gnmi Require Import Base.Prelude CTree.CTreeModel Pipeline.PipelineModel Pipeline.PipelineCheck
   Pipeline.PipelineProofs.
 
@@ -75,8 +85,10 @@ Proof. exact relay_faithful_all. Qed.
 Print Assumptions C01_relay_faithful.
 
 (** its hypotheses are satisfiable: two targets, keyed path, origin in a prefix,
-    decimal value, a suppressed update, a subtree delete, an interleaved
-    schedule; the resulting view has two leaves *)
+    decimal value, a suppressed update, a subtree delete, TWO SESSIONS of the
+    subscribed target (the first fails while the client is subscribed; the
+    second re-sends with smaller timestamps), an interleaved schedule; the
+    resulting view has two leaves *)
 Theorem C01_relay_faithful_example :
   exists l, pipeline RelayExample.cfg RelayExample.ss RelayExample.q2 RelayExample.sched = VLeaves l /\
             Permutation l (selects_any [["dev1"; "foo"]; ["dev1"; "openconfig"; "a"]]
@@ -196,6 +208,89 @@ Theorem C01_relay_reconnect_example :
     = [(["dev1"; "openconfig"; "a"; "y"], SInt 7)].
 Proof. exact Refuted.reconnect_example. Qed.
 Print Assumptions C01_relay_reconnect_example.
+
+(** several sessions, spelled out: the subscribed target's history is any
+    number of sessions, each cut at any point and followed by the manager's
+    Reset, then a last one; at quiescence the client's view equals what the
+    LAST session holds (any number of targets, any schedule) *)
+Theorem C01_relay_sessions :
+  forall (name : string) (Vals : tv -> Prop) (Qrs : list path)
+         (cq : cquery) (earlier : list (list item)) (last : list item)
+         (cfg : config) (ss : streams) (sched : list action),
+    (forall v : tv, Vals v -> to_scalar v <> None) ->
+    (forall a b : tv, Vals a -> Vals b -> tv_equal a b = true -> to_scalar a = to_scalar b) ->
+    (forall a b : tv, Vals a -> Vals b -> tv_eqb a b = true -> a = b) ->
+    (forall Qr, In Qr Qrs -> glob_free Qr = true) ->
+    g_target (cq_prefix cq) = name ->
+    map (complete_path (cq_prefix cq)) (cq_paths cq) = map Some Qrs ->
+    stream_ok name Vals Qrs (join_sessions earlier last) ->
+    validate cfg = true -> NoDup (keys (cf_targets cfg)) ->
+    (forall n, In n (keys (cf_targets cfg)) -> is_glob n = false) ->
+    In name (keys (cf_targets cfg)) ->
+    NoDup (keys ss) -> assoc name ss = Some (join_sessions earlier last) ->
+    (forall n' l, In (n', l) ss -> Forall (item_nometa n') l) ->
+    exists l, pipeline cfg ss cq sched = VLeaves l /\
+              Permutation l (selects_any (sub_queries cq) (stamp_paths name (replay last))).
+Proof. exact relay_sessions_all. Qed.
+Print Assumptions C01_relay_sessions.
+
+(** no stale leaf, at every point of every run: stop the run after ANY schedule
+    ([run_to]); the subscribed target's stream splits into what it has
+    delivered, [c], and the rest; if nothing more arrives ([pipeline_at]) the
+    client holds exactly the replay of [c].  With [c = join_sessions earlier
+    sent] (second form): after a reset the client holds nothing the new session
+    has not sent *)
+Theorem C01_relay_no_stale_leaf :
+  forall (name : string) (Vals : tv -> Prop) (Qrs : list path)
+         (cq : cquery) (s : list item) (cfg : config) (ss : streams) (sched : list action),
+    (forall v : tv, Vals v -> to_scalar v <> None) ->
+    (forall a b : tv, Vals a -> Vals b -> tv_equal a b = true -> to_scalar a = to_scalar b) ->
+    (forall a b : tv, Vals a -> Vals b -> tv_eqb a b = true -> a = b) ->
+    (forall Qr, In Qr Qrs -> glob_free Qr = true) ->
+    g_target (cq_prefix cq) = name ->
+    map (complete_path (cq_prefix cq)) (cq_paths cq) = map Some Qrs ->
+    stream_ok name Vals Qrs s ->
+    validate cfg = true -> NoDup (keys (cf_targets cfg)) ->
+    (forall n, In n (keys (cf_targets cfg)) -> is_glob n = false) ->
+    In name (keys (cf_targets cfg)) ->
+    NoDup (keys ss) -> assoc name ss = Some s ->
+    (forall n' l, In (n', l) ss -> Forall (item_nometa n') l) ->
+    (exists rs c rem l,
+       run_to cfg ss cq sched = Some rs /\ s = c ++ rem /\ assoc name (rn_streams rs) = Some rem /\
+       pipeline_at cfg ss cq sched = VLeaves l /\
+       Permutation l (selects_any (sub_queries cq) (stamp_paths name (replay c)))) /\
+    (forall rs rem earlier sent,
+       run_to cfg ss cq sched = Some rs -> assoc name (rn_streams rs) = Some rem ->
+       s = join_sessions earlier sent ++ rem ->
+       exists l, pipeline_at cfg ss cq sched = VLeaves l /\
+                 Permutation l (selects_any (sub_queries cq) (stamp_paths name (replay sent)))).
+Proof. exact relay_no_stale. Qed.
+Print Assumptions C01_relay_no_stale_leaf.
+
+(** an instance: the reconnect run stopped right after the reset -- the client
+    holds nothing; the same with the reset skipped -- both leaves of the dead
+    session are still there *)
+Theorem C01_relay_no_stale_example :
+  pipeline_at Refuted.cfg1 [("dev1", Refuted.s_sessions)] RelayExample.q
+      [AIngest "dev1"; AIngest "dev1"; ASubscribe; ASend; ASend; ASend; AIngest "dev1"] = VLeaves [] /\
+  pipeline_at Refuted.cfg1
+      [("dev1", filter (fun it => match it with IReset => false | _ => true end) Refuted.s_sessions)] RelayExample.q
+      [AIngest "dev1"; AIngest "dev1"; ASubscribe; ASend; ASend; ASend]
+    = VLeaves [(["dev1"; "openconfig"; "a"; "x"], SInt 1); (["dev1"; "openconfig"; "a"; "y"], SInt 2)].
+Proof. exact Refuted.no_stale_example. Qed.
+Print Assumptions C01_relay_no_stale_example.
+
+(** the session statement discriminates: a collector that skips Reset when a
+    session ends (on a clean EOF, say) is the pipeline fed the same messages
+    without the failure marker; on the reconnect stream its client keeps x of
+    the dead session and never takes the new session's y (older timestamp) --
+    not what the target's last session holds *)
+Theorem C01_relay_skip_reset_refuted :
+  exists l, pipeline Refuted.cfg1 [("dev1", Refuted.s_sessions_skip)] RelayExample.q
+              [AIngest "dev1"; AIngest "dev1"; ASubscribe; ASend; ASend; ASend; AIngest "dev1"; ASend] = VLeaves l /\
+            ~ Permutation l (selects ["dev1"] (stamp_paths "dev1" (replay Refuted.s_sessions))).
+Proof. exact Refuted.skip_reset_refuted. Qed.
+Print Assumptions C01_relay_skip_reset_refuted.
 
 (** outside prefix-freeness: a notification that deletes a leaf and writes below
     it is applied updates-first by the cache (gNMI: deletes first) and the
